@@ -104,6 +104,14 @@ def build_seed(name, A):
         return sf.Frame.from_structured_array(A['struct'], index_depth=1, name='f')
     if name == 'Frame-from-2d-as-structured':
         return sf.Frame.from_structured_array(A['2d'], name='f', store_filter=None)
+    if name in ('FrameGO-grown-with-caller-arrays.to_frame()', 'FrameGO-grown-with-caller-arrays[column]'):
+        # a grow-only Frame whose columns were assigned from the caller's arrays and from VIEWS of them (a write through the base reaches a kept view)
+        g = sf.FrameGO(index=A['lab'])
+        g['p'] = A['i8']
+        g['q'] = A['2d'][:, 1]
+        g['r'] = A['f8'][::-1]
+        g.extend_items((('s', A['i8b'][:]),))
+        return g.to_frame().rename('f') if name.endswith('to_frame()') else g['q'].rename('s')
     if name == 'Frame-from-records':
         return sf.Frame.from_records([A['i8'], A['i8b']], columns=A['lab'], name='f')
     if name == 'Frame-from-concat':
@@ -212,7 +220,7 @@ GO_SEEDS = {'Frame-extended-into-an-empty-FrameGO': _static_into_go('extend-empt
 
 
 SEEDS_QUICK = ['Frame-from-structured-array', 'Frame-from-structured-array-index', 'Frame-from-2d-as-structured', 'Index', 'IndexDate', 'IndexHierarchy', 'IndexHierarchy-depth3', 'Series-hier3', 'Frame-hier3-index', 'Series-float', 'Series-object', 'SeriesHE', 'Frame-mixed-1d', 'Frame-2d-block', 'FrameHE', 'Frame-zero-rows',
-               'Series-1030-labels'] + list(GO_SEEDS)
+               'Series-1030-labels', 'FrameGO-grown-with-caller-arrays.to_frame()', 'FrameGO-grown-with-caller-arrays[column]'] + list(GO_SEEDS)
 SEEDS_ALL = SEEDS_QUICK + ['IndexGO->static', 'IndexHierarchy-from-arrays', 'Series-hier', 'Frame-typeblocks', 'Frame-hier-columns', 'Frame-from-records', 'Frame-from-concat']
 DEPTH2_QUICK = {'Series-float', 'Frame-mixed-1d', 'IndexHierarchy'}
 
@@ -556,6 +564,10 @@ def run_case(case, ctx):
     # (iii)/(ii) on the freshly built seed, and (iv): the caller writes into every array it supplied
     ok, _ = check_after(ctx, type(seed).__name__, 'construct:' + seed_name, seed, [(seed, s0)], caller, info0)
     for k, a in caller.items():
+        if not a.flags.writeable:
+            # the caller's own array must stay the caller's: a container that keeps it (frozen in place) instead of a copy has taken it over
+            ctx.violation(f'{seed_name}|caller-array-frozen-in-place', **info0, array=k)
+            return
         if a.dtype == object:
             a[0] = 'HACK'
         elif a.dtype.kind in 'iuf':
